@@ -127,8 +127,9 @@ IntentionalDiff_CRLF(o) == o.cr /\ o.impl = "ok" /\ o.shell = "rejected"
 IntentionalDiff_EmptyArithmetic(o) == StricterThanShell(o) /\ EmptyArithTok(o.toks)
 \* parser_test.go:1951, :1956 "note that we don't backtrack": `((` always starts arithmetic for syntax.Parser;
 \* the shells fall back to two nested subshells when the text is not arithmetic.
+\* (also `$(` directly followed by `(`: parser_test.go:1123 `echo $((foo) )`)
 DblParenTok(toks) == \E k \in DOMAIN toks : toks[k] = <<"(", "(">> \/
-                        (toks[k] = <<"(">> /\ k < Len(toks) /\ StartsWith(toks[k + 1], <<"(">>))
+                        (EndsWith(toks[k], <<"(">>) /\ k < Len(toks) /\ StartsWith(toks[k + 1], <<"(">>))
 IntentionalDiff_NoArithBacktrack(o) == StricterThanShell(o) /\ DblParenTok(o.toks)
 \* parser_test.go:303-:307 (confirmParse prepends `shopt -s extglob`: "otherwise bash refuses to parse these
 \* properly"): Bash mode assumes extglob is on, so `!(` starts a pattern list; plain `bash -n` has extglob off and
